@@ -131,7 +131,7 @@ def check_matrix(case, ctx):
     onehot = all(r in ONEHOT for r in rows)
     subsets = []
     if case.get('shifts'):
-        for c in SHIFTS:
+        for c in SHIFTS + ([800.0] if T <= 2 else []):      # +800: beyond the overflow limit of a naive exp() in float64
             for m in range(1, 2 ** T):
                 subsets.append([c if (m >> t) & 1 else 0.0 for t in range(T)])
 
@@ -176,6 +176,31 @@ def check_matrix(case, ctx):
             ctx.violation('invariant-to-per-frame-shift', f'{K}/line_confident_enough/shift', f'rows {rows}, shift {sh}: {r1} -> {r2}')
             break
 
+    # ---- history on one TextLine object: after new logits are assigned, every confidence is computed from the NEW logits
+    rows2 = [(r + 1 + t) % len(ROWS) for t, r in enumerate(rows)]
+    if rows2 != list(rows):
+        fresh = make_line(rows2)
+        want2 = float(PageParser.compute_line_confidence(fresh))
+        lp2 = fresh.get_full_logprobs()
+        line.get_full_logprobs()
+        line.get_dense_logits()
+        line.logits = make_line(rows2).logits
+        got2 = float(PageParser.compute_line_confidence(line))
+        lpg = line.get_full_logprobs()
+        ctx.executed(6)
+        lab1 = np.asarray([0])
+        ok = abs(got2 - want2) <= TOL and np.array_equal(lpg, lp2)
+        if ok and T == 1:
+            c_new = np.asarray(get_line_confidence(line, lab1), dtype=float)
+            c_ref = np.asarray(get_line_confidence(fresh, lab1), dtype=float)
+            ok = np.abs(c_new - c_ref).max() <= TOL
+        if not ok:
+            ctx.violation('computed-from-the-lines-own-posteriors', f'{K}/stale-after-logits-reassigned',
+                          f'rows {rows}: after assigning the logits of rows {rows2} to the same TextLine, confidences are not those of the new logits '
+                          f'(line confidence {got2}, fresh line {want2})')
+            return
+        line.logits = make_line(rows).logits
+        ctx.tag('logits-reassigned-on-a-live-line')
     # ---- per-character confidences for every alignable transcription
     for labels in labels_for(T):
         sub = dict(case, labels=labels)
@@ -297,6 +322,6 @@ def describe(tier):
         'assumptions': ['tolerance 1e-9 on shift invariance and normalisation', 'alignment is computed once and reused for the shifted copy, '
                         'so that round-off cannot flip a tie in the alignment'],
         'min_nontrivial': 100,
-        'required_tags': ['aligned-ctc-line', 'one-hot-line', 'one-frame-per-label-line', 'threshold-grid-splits',
+        'required_tags': ['logits-reassigned-on-a-live-line', 'aligned-ctc-line', 'one-hot-line', 'one-frame-per-label-line', 'threshold-grid-splits',
                           'bag-weight-changed-between-queries'],
     }
